@@ -289,6 +289,11 @@ func c10Witnesses(c *Cfg) {
 	d = c10Decode(ctx, doc, true)
 	c.Direct(d.ok, "duplicate-key-differing-values",
 		"valid JSON object with a repeated member name whose values differ is rejected: "+d.stage+": "+d.err, string(doc))
+	// member names are NFC-normalised by the compiler
+	doc = []byte(`{"A\u030c":1}`)
+	d = c10Decode(ctx, doc, true)
+	c.Direct(d.ok && string(d.out) == "{\"A\u030c\":1}", "member-name-not-nfc",
+		fmt.Sprintf("member name that is not in Unicode NFC comes back changed: %s → %s (%s %s)", doc, d.out, d.stage, d.err), string(doc))
 	// lone surrogate escape: excluded from the property (not Unicode text), counted only
 	d = c10Decode(ctx, []byte(`"\ud800"`), false)
 	if !d.ok {
@@ -316,7 +321,7 @@ func c10StrAnswer(ctx *cue.Context, tok []byte) string {
 
 func c10StringTokens(c *Cfg, r *Rng) {
 	ctx := cuecontext.New()
-	n := c.Pick(12000, 400000)
+	n := c.Pick(12000, 800000)
 	if c.Focus {
 		n = c.Pick(40000, 400000)
 	}
@@ -419,14 +424,13 @@ func c10NumAnswer(ctx *cue.Context, tok []byte) string {
 	if !d.ok {
 		return "reject"
 	}
-	k := "other"
 	switch d.val.Kind() {
 	case cue.IntKind:
-		k = "int"
+		return "int " + H(string(d.out))
 	case cue.FloatKind:
-		k = "float"
+		return "float " + H(string(d.out))
 	}
-	return k + " " + H(string(d.out))
+	return "reject" // the text is a document of another kind, not a number token
 }
 
 func c10NumberTokens(c *Cfg, r *Rng) {
@@ -576,9 +580,7 @@ func c10EncoderTokens(c *Cfg, r *Rng) {
 		want := strings.ToValidUTF8(s, "\uFFFD")
 		c.Direct(json.Valid(out) && uerr == nil && back == want, "marshal-string-roundtrip",
 			fmt.Sprintf("string %q marshals to %q which encoding/json reads back as %q (%v)", s, out, back, uerr), H(s))
-		lo := bytes.ToLower(out)
-		c.Direct(!bytes.Contains(lo, []byte(`\u003c`)) && !bytes.Contains(lo, []byte(`\u003e`)) && !bytes.Contains(lo, []byte(`\u0026`)),
-			"html-escaping", fmt.Sprintf("string %q marshals with HTML escaping: %s", s, out), H(s))
+		c.Direct(!htmlEscaped(out), "html-escaping", fmt.Sprintf("string %q marshals with HTML escaping: %s", s, out), H(s))
 		// the same string as an object key goes through structValue.appendJSON
 		if len(seen)%7 == 0 {
 			kout, err := c10Marshal(ctx.Encode(map[string]int{s: 1}))
